@@ -48,9 +48,14 @@ type Msg struct {
 
 // Scenario is one client under attack.
 type Scenario struct {
-	MProposes bool  `json:"mproposes"` // M is participant 0 of the M-H channel
-	WithSub   bool  `json:"withsub"`
-	Msgs      []Msg `json:"msgs"`
+	MProposes bool `json:"mproposes"` // M is participant 0 of the M-H channel
+	WithSub   bool `json:"withsub"`
+	// Stage of the M-H channel's life when the messages arrive: "" = open,
+	// "final" = after a final update, "disputed" = H has registered a dispute
+	// and its Settle call is waiting for the challenge period (it is finished
+	// after the messages), "closed" = settled, withdrawn and closed by H
+	Stage string `json:"stage,omitempty"`
+	Msgs  []Msg  `json:"msgs"`
 }
 
 // Case is a batch of independent scenarios that run concurrently (the client
@@ -78,6 +83,7 @@ func drawScenario(t *rapid.T) Scenario {
 	var s Scenario
 	s.MProposes = rapid.Bool().Draw(t, "mproposes")
 	s.WithSub = rapid.IntRange(0, 3).Draw(t, "withsub") == 0
+	s.Stage = rapid.SampledFrom([]string{"", "", "", "final", "disputed", "closed"}).Draw(t, "stage")
 	n := rapid.IntRange(1, 6).Draw(t, "nmsgs")
 	for i := 0; i < n; i++ {
 		k := rapid.SampledFrom(kinds).Draw(t, "kind")
@@ -528,6 +534,58 @@ func runScenario(sc Scenario, idx int, o *h.Outcome, omu *sync.Mutex) *h.Failure
 		defer cancel()
 		_ = r.Accept(ctx)
 	})
+	// ---- life stage of the M-H channel
+	var settled chan error
+	startSettle := func() {
+		settled = make(chan error, 1)
+		go func() {
+			ctx, cancel := context.WithTimeout(context.Background(), 2*probeLimit)
+			defer cancel()
+			settled <- x.mh[1].Settle(ctx, false)
+		}()
+	}
+	finishSettle := func() *h.Failure {
+		deadline := time.After(2*probeLimit + 5*time.Second)
+		for {
+			select {
+			case <-settled:
+				return nil
+			case <-time.After(3 * time.Millisecond):
+				env.AdvanceIfParked()
+			case <-deadline:
+				return h.Failf("settle-hang", "scenario %d: H's own Settle call on the channel with the adversary does not return", idx)
+			}
+		}
+	}
+	switch sc.Stage {
+	case "final":
+		ctx, cancel := context.WithTimeout(context.Background(), probeLimit)
+		err := x.mh[0].Update(ctx, func(s *channel.State) { s.IsFinal = true })
+		cancel()
+		if err != nil {
+			return h.Failf("harness", "final update before the attack: %v", err)
+		}
+		env.Quiesce(8*time.Millisecond, sim.HangLimit)
+		x.last = x.mh[1].State()
+	case "disputed":
+		startSettle()
+		// wait until the dispute is on the ledger and H is parked on the clock
+		for i := 0; i < 400; i++ {
+			if n, _ := env.Ledger.Clock.Waiters(); n > 0 {
+				break
+			}
+			time.Sleep(2 * time.Millisecond)
+		}
+	case "closed":
+		startSettle()
+		if f := finishSettle(); f != nil {
+			return f
+		}
+		_ = x.mh[1].Close()
+	}
+	if sc.Stage != "" {
+		class("stage:" + sc.Stage)
+	}
 	slow := 0
 	for _, m := range sc.Msgs {
 		var msg wire.Msg
@@ -585,6 +643,11 @@ func runScenario(sc Scenario, idx int, o *h.Outcome, omu *sync.Mutex) *h.Failure
 		time.Sleep(time.Duration(slow)*10500*time.Millisecond + time.Second)
 	} else {
 		time.Sleep(100 * time.Millisecond)
+	}
+	if sc.Stage == "disputed" {
+		if f := finishSettle(); f != nil {
+			return f
+		}
 	}
 	// ---- probes
 	// 1. State() returns on every channel of H
